@@ -159,6 +159,8 @@ class P:
         self.phase, self.rec, self.prof, self.ns, self.lib, self.snaps = phase, rec, prof, ns, lib, snaps
         self.raw = {}
         self.not_registered = []
+        self.impure = []
+        self.peeks = []
         self.counts = {}
 
     def fn(self, name):
@@ -185,16 +187,53 @@ class P:
             # from now on every execution of this function goes through the profiler's wrapper
             self.rec.ops.append(('W', self.rec.label(code_of(self.rawfn(name)))))
 
+    def _check_registered(self, names, how):
+        # the intent of every registration entry point: afterwards the profiler knows THIS function object's code
+        known = list(self.prof.code_hash_map)
+        for nm in names:
+            code = code_of(self.rawfn(nm))
+            if not any(k is code or (k == code and k.co_filename == code.co_filename) for k in known):
+                self.not_registered.append('%s via %s' % (nm, how))
+
     def addmod(self, names):
         import types
         mod = types.ModuleType('m_' + '_'.join(names))
         for nm in names:
             setattr(mod, nm, self.rawfn(nm))
         self.prof.add_module(mod)
-        have = set(map(id, self.prof.functions))
-        for nm in names:
-            if id(self.rawfn(nm)) not in have:
-                self.not_registered.append(nm)
+        self._check_registered(names, 'add_module')
+
+    def addcls(self, names):
+        # the functions as methods of a class inside a module (add_module walks classes too)
+        import types
+        mod = types.ModuleType('mc_' + '_'.join(names))
+        cls = type('K', (), {nm: self.rawfn(nm) for nm in names})
+        cls.__module__ = mod.__name__
+        mod.K = cls
+        self.prof.add_module(mod)
+        self._check_registered(names, 'add_module(class)')
+
+    def regimp(self, names, as_class=False):
+        # the entry point the auto-profiling rewriter calls after a selected import; it switches the profiler on
+        # (by count) as well, main() balances that with P.unwind()
+        from line_profiler.autoprofile.line_profiler_utils import add_imported_function_or_module
+        if as_class:
+            item = type('K', (), {nm: self.rawfn(nm) for nm in names})
+            add_imported_function_or_module(self.prof, item)
+        else:
+            for nm in names:
+                add_imported_function_or_module(self.prof, self.rawfn(nm))
+        self._check_registered(names, 'add_imported_function_or_module' + ('(class)' if as_class else ''))
+
+    def unwind(self):
+        while self.prof.enable_count > 0:
+            self.prof.disable_by_count()
+
+    def bare_on(self):
+        self.prof.enable()
+
+    def bare_off(self):
+        self.prof.disable()
 
     def adv(self, d):
         if self.phase == 'A':
@@ -202,14 +241,33 @@ class P:
         else:
             self.lib.vclock_advance(d)
 
-    def snap(self):
+    def snap(self, mode=0):
         # reference cycles (e.g. a wrapper frame <-> the exception it forwards) make the moment abandoned
         # generators are finalised depend on the cyclic collector; automatic collection is off in this driver
         # and cycles are collected HERE, at the same point of both phases, so the two executions see the
         # finalisers' events at the same place
         gc.collect()
-        st = self.prof.get_stats()
+        n0 = len(self.rec.ops)
+        me = self.rec.tid() if self.phase == 'A' else None
+        if mode == 1:
+            # the text report is a reader too
+            import io
+            self.prof.print_stats(stream=io.StringIO())
+            st = self.prof.get_stats()
+        elif mode == 2:
+            # and so is the pickle: what was written is what is compared
+            from line_profiler import load_stats
+            path = os.path.join(self.root, 'snap_%d_%d.lprof' % (self.k, threading.get_ident()))
+            self.prof.dump_stats(path)
+            st = load_stats(path)
+            os.unlink(path)
+        else:
+            st = self.prof.get_stats()
         if self.phase == 'A':
+            # a read is pure: it performs no profiler operation (enable/disable/registration) in this thread
+            for op in self.rec.ops[n0:]:
+                if op[0] == 'G' or (op[0] in ('E', 'D') and op[1] == me):
+                    self.impure.append([mode, list(op)])
             self.rec.ops.append(('S',))
         else:
             out = []
@@ -218,6 +276,22 @@ class P:
                 out.append([self.rec.labels.get(key, -1), [list(e) for e in ents]])
             out.sort()
             self.snaps.append(dict(unit=st.unit, timings=out))
+
+    def peek(self, mode=0):
+        # a monitoring thread reads the statistics while workers run: the value depends on the schedule, so it
+        # is only required to be well-formed and below the final snapshot; it must not change later results
+        if self.phase == 'A':
+            return
+        if mode == 1:
+            import io
+            self.prof.print_stats(stream=io.StringIO())
+        st = self.prof.get_stats()
+        out = []
+        for (fn, ln, nm), ents in st.timings.items():
+            key = (os.path.basename(fn), ln, nm)
+            out.append([self.rec.labels.get(key, -1), [list(e) for e in ents]])
+        out.sort()
+        self.peeks.append(out)
 
     # threads (C13): real threads, joined; the schedule is whatever the interpreter does
     def yield_(self):
@@ -250,11 +324,12 @@ def run_program(prog, root, lib, k):
         h.root, h.k = root, k
         ns['A'] = h.adv
         ns['PROF'] = prof
+        ns['SNAP'] = h.snap
         for fn, (path, text) in files.items():
             if fn == 'main.py' or not fn.startswith('twin'):
                 exec(compile(text, path, 'exec'), ns, ns)
             else:
-                ns2 = {'__name__': 'twinmod', 'A': h.adv, 'PROF': prof}
+                ns2 = {'__name__': 'twinmod', 'A': h.adv, 'PROF': prof, 'SNAP': h.snap}
                 exec(compile(text, path, 'exec'), ns2, ns2)
                 for nm, v in list(ns2.items()):
                     if nm[:1] == 'f' and nm[1:].isdigit() and callable(v):
@@ -279,6 +354,8 @@ def run_program(prog, root, lib, k):
             result['errA'] = err
             result['ops'] = rec.ops
             result['ncodesA'] = len(rec.codes)
+            result['impure'] = h.impure
+            result['not_registered'] = list(h.not_registered)
         else:
             result['errB'] = err
             result['snaps'] = snaps
@@ -287,7 +364,8 @@ def run_program(prog, root, lib, k):
                                     for kk, vv in cm.items())
             result['chm'] = [[rec.cid(code), [int(x) for x in hs]] for code, hs in prof.code_hash_map.items()]
             result['counts'] = h.counts
-            result['not_registered'] = h.not_registered
+            result['not_registered'] = sorted(set(result.get('not_registered', []) + h.not_registered))
+            result['peeks'] = h.peeks
             result['gettrace_clear'] = sys.gettrace() is None
             try:
                 result['tool_free'] = sys.monitoring.get_tool(sys.monitoring.PROFILER_ID) is None
